@@ -505,6 +505,11 @@ class URL:
                 self.host = ud['host'].encode("ascii")
             except UnicodeEncodeError:
                 self.host = ud['host']  # already non-ascii text
+                try:
+                    self.host.encode("idna")  # to_text() has to
+                except UnicodeError as ue:
+                    raise URLParseError('invalid internationalized host:'
+                                        ' %r (%s)' % (ud['host'], ue))
             else:
                 try:
                     self.host = self.host.decode("idna")
@@ -742,7 +747,14 @@ class URL:
                 _add(self.host)
                 _add(']')
             elif full_quote:
-                _add(self.host.encode('idna').decode('ascii'))
+                try:
+                    _add(self.host.encode('idna').decode('ascii'))
+                except UnicodeError:
+                    # the codec refuses empty and over-long labels even
+                    # when there is nothing to encode ('a..b')
+                    if not self.host.isascii():
+                        raise
+                    _add(self.host)
             else:
                 _add(self.host)
             # TODO: 0 port?
